@@ -64,9 +64,14 @@ Spec == Init /\ [][Next]_vars
 
 NoViolation == m.viol = <<>>
 
-\* a state with a recorded violation is never identified with one without (TLC evaluates invariants on new views only);
-\* the state after a queried call is kept apart so that one behaviour ending in it is exported for replay
-View == <<st, m.se, m.avail, m.pend, m.eos, m.done, m.desync, m.ist, m.rd, m.hadU, staged, eos, m.viol # <<>>, hist # <<>> /\ hist[Len(hist)].q>>
+\* a state with a recorded violation is never identified with one without (TLC evaluates invariants on new views only).
+\* The state after a queried call usually coincides with the state after a large fixed capacity: queried behaviours are
+\* exported per transition (ExportStep), not per state.
+View == <<st, m.se, m.avail, m.pend, m.eos, m.done, m.desync, m.ist, m.rd, m.hadU, staged, eos, m.viol # <<>>>>
 
 Export == hist = <<>> \/ PrintT(<<"HIST", ToJson([new |-> NewEv, calls |-> hist])>>)
+
+\* export per transition (ACTION_CONSTRAINT, evaluated on every generated step, also on those that lead to a state already
+\* seen): the shortest history to the source state followed by this call - every (state, call) pair of the model is replayed
+ExportStep == hist' = hist \/ PrintT(<<"HIST", ToJson([new |-> NewEv, calls |-> hist'])>>)
 =============================================================================
